@@ -160,6 +160,10 @@ for v in ["interrupt_c01", "interrupt_c02", "destroy_c01", "destroy_c01_devfail"
     reg(OPS_A, "misc_h::" + v, [prop], tier="thorough", flavour="model", timeout=900, support=MSUP, cost=2,
         what="INTERRUPT/DESTROY/NOTIFY_REPLY shapes (%s)" % v, bounds="header and 8 body bytes symbolic", functions=SRV_FUNCS, stubs=SRV_STUBS,
         role="misc:%s" % v)
+for v in ("c03_inval_entry", "c03_inval_inode", "c03_resend"):
+    reg(OPS_A, "notify_h::" + v, ["C03"], tier="quick" if v == "c03_inval_entry" else "thorough", flavour="model", timeout=900, support=MSUP, cost=1,
+        what="notification message " + v[4:], bounds="u64 arguments symbolic; name fixed (abc)", functions=["Server::notify_inval_entry/notify_inval_inode/notify_resend", "FuseDevWriter split_at(0)/write_obj/commit (model)"],
+        stubs=SRV_STUBS, role="notify:" + v)
 for mod in ("readlink", "listxattr"):
     for v in ["c01", "c02", "c03", "c03_len0", "c03_len8", "c01_nospace"] + (["c01_devfail"] if mod == "readlink" else ["c01_trunc"]):
         reg_op(OPS_A, mod, v, "request bytes; reply payload of 0/3/8 symbolic bytes (length concrete per instance) or a count", quick=False)
@@ -334,16 +338,7 @@ for fn, q in [("c17_dirty_write_8_8", True), ("c17_dirty_write_3_8", True), ("c1
         functions=IOB_FUNCS + ["vm_memory::Bitmap::mark_dirty via VolatileSlice::bitmap()"], stubs=[STUB_FMT, "RecBitmap: harness BitmapSlice that records mark_dirty(offset,len) relative to a base"], role=fn)
 
 
-# ============================================================================ C20 sync vs async (model overlay, feature async-io)
-C20F = "harness/model/srvasync__c20.rs"
-C20_QUICK = {"forget_oversize", "getattr_ok", "getattr_err", "unlink_ok", "forget_ok"}
-for v in ["getattr_ok", "getattr_err", "setattr_ok", "lookup_ok", "open_ok", "fsync_err", "fallocate_ok", "write_ok", "read_ok", "unlink_ok", "release_err",
-          "forget_oversize", "forget_ok", "getattr_oversize", "getattr_tiny_reply_buffer", "unknown_opcode"]:
-    reg(C20F, "c20::" + v, ["C20"], tier="quick" if v in C20_QUICK else "thorough", flavour="model-async", timeout=1500, timeout_thorough=2400, mem=20,
-        features=["fusedev", "async-io"], support=MSUP, cost=6,
-        what="handle_message vs block_on(async_handle_message) on the same request: " + v,
-        bounds="opcode concrete; header fields and request-structure bytes symbolic; answer: success or symbolic errno; in_header.len exact or oversize; reply buffer 160 (8 for the tiny instance)",
-        functions=["Server::handle_message", "Server::async_handle_message", "async handlers (lookup/getattr/setattr/open/create/read/write/fsync/fsyncdir/fallocate)",
-                   "async_reply_ok / async_do_reply_error", "model FuseDevWriter async_* (mirrors src/transport/fusedev mod async_io)"],
-        stubs=SRV_STUBS + ["kani::block_on drives the future (the fusedev async writer completes synchronously)", "AsyncFileSystem twin of SymFs delegating to the same script/log"],
-        role="c20:" + v)
+# ============================================================================ C20 sync vs async
+# harness/model/srvasync__c20.rs exists (feature async-io builds under Kani) but is NOT registered: every instance
+# timed out at 1500 s -- the drop glue of the boxed `dyn Future`s / async bodies forms recursion cycles that CBMC
+# unrolls to the bound even with three of them limited by --unwindset (see DESIGN.md C20).
